@@ -458,6 +458,9 @@ class Engine:
             # added get the sub-schemas and defaults of their stores,
             # and the views are built from what is there now.
             self.state._apply_subschemas()
+            # (re-applying the sub-schemas to the existing children must
+            # not undo the settings of store_schema: it has the last word)
+            self.state._apply_config(store_schema)
             self.state.apply_defaults()
             self.state.build_topology_views()
 
